@@ -6,6 +6,7 @@ import SdcModel.Proofs.ScalarsStr
 import SdcModel.Proofs.ScalarsDecVal
 import SdcModel.Proofs.ScalarsDecLex
 import SdcModel.Proofs.ScalarsDur
+import SdcModel.Proofs.ScalarsDurFp
 import SdcModel.Proofs.ScalarsEnum
 import SdcModel.Generated.ScalarsEnums
 /-!
@@ -78,14 +79,25 @@ example : decToPy [32, 45, 48, 48, 55, 46, 53, 48, 10] = .ok ⟨true, 750, -2⟩
 /-! ### durations -/
 
 /-- `parse_duration(duration_string(·))` at the integer microsecond boundary: the text written for `total`
-    microseconds (any value up to `timedelta.max`) is parsed back to exactly `total` microseconds.
-    `FloatStepExact` is the statement that `float('s.f')` and the float branch of `timedelta(seconds=…)` are exact for
-    `s < 60` and at most six fraction digits (trusted; the executable model of these steps is in the driver and under
-    bit-exact correspondence). -/
-theorem duration_roundtrip (hfs : FloatStepExact) (total : Nat) (hmax : total / usPerDay ≤ maxDays) :
+    microseconds (any value up to `timedelta.max`) is parsed back to exactly `total` microseconds — including the
+    float steps of the parser (`float('s.f')`, `modf`, `frac * 1e6`, round-half-even of `timedelta(seconds=…)`),
+    which are exact here because `duration_string` writes seconds below 60 with at most six fraction digits
+    (`floatStepExact`, proved on the binary64 model). -/
+theorem duration_roundtrip (total : Nat) (hmax : total / usPerDay ≤ maxDays) :
     parseDurationUs (durationStringUs total) = .ok total :=
-  parseDurationUs_durationStringUs hfs total hmax
+  parseDurationUs_durationStringUs floatStepExact total hmax
 
+/-- the float handed back by `parse_duration` is `total / 10^6` correctly rounded (`timedelta.total_seconds()`) -/
+theorem duration_roundtrip_float (total : Nat) (hmax : total / usPerDay ≤ maxDays) :
+    parseDuration (durationStringUs total) = .ok (rnRat false total usPerSec) := by
+  unfold parseDuration; rw [duration_roundtrip total hmax]; rfl
+
+/-- what `duration_string` writes for a float is the rendering of the microsecond count `timedelta` computes for it -/
+theorem duration_string_of_float (x : Fp) (us : Nat) (hx : x.m ≠ 0) (h : timedeltaUs 0 0 x = .ok us) :
+    durationString x = .ok (durationStringUs us) := by
+  unfold durationString; rw [if_neg hx, h]; rfl
+
+example : (86399999999999999999 : Nat) / usPerDay ≤ maxDays := by decide
 example : durationStringUs 3723000001 = [80, 84, 49, 72, 50, 77, 51, 46, 48, 48, 48, 48, 48, 49, 83] := by decide
 example : parseDurationUs [80, 84, 49, 72, 50, 77, 51, 46, 48, 48, 48, 48, 48, 49, 83] = .ok 3723000001 := by decide
 
